@@ -315,6 +315,21 @@ def _iter_record(prov: "Prov", it):
     return next(iter(recs)) if len(recs) == 1 and "?" not in recs else None
 
 
+def _strip_views(t):
+    """dict(x) / x.items() / list(x) / x.copy() / x[:] denote the same entries as x."""
+    from .terms import is_const
+
+    while True:
+        if op(t) == "call" and t[1] in (("builtin", "dict"), ("builtin", "list"), ("builtin", "tuple")) and len(t[2]) == 1 and not t[3]:
+            t = t[2][0]
+        elif op(t) == "call" and op(t[1]) == "attr" and t[1][2] in ("items", "copy") and not t[2]:
+            t = t[1][1]
+        elif op(t) == "slice" and (is_const(t[2], None) or is_const(t[2], 0)) and is_const(t[3], None) and (is_const(t[4], None) or is_const(t[4], 1)):
+            t = t[1]
+        else:
+            return t
+
+
 def constructor_tables(cx: Cx, ob_id: str) -> dict[str, list[Entry]]:
     """Entries of each derived table as built by ``Converter.__init__``."""
     init = cx.fn(f"{CONV}.__init__", ob_id)
@@ -346,8 +361,22 @@ def constructor_tables(cx: Cx, ob_id: str) -> dict[str, list[Entry]]:
                 if op(src) == "call" and op(src[1]) == "func":
                     tables[name] = dict_builder_entries(cx, cx.model.functions[src[1][1]], name, ob_id)
                     continue
+        if op(v) == "call" and callee_name(v) == "StringTrie" and not v[2] and not v[3] and name not in alias and name not in tables:
+            # empty trie filled item by item from another table: for k, v in <table>.items(): self.trie[k] = v
+            for e2, c2 in s.walk():
+                if e2.kind == "store" and op(e2.a) == "item" and e2.a[1] == tgt and c2.loops:
+                    lp2 = c2.loops[-1]
+                    it2 = _strip_views(lp2.b)
+                    if op(lp2.a) == "tuple" and len(lp2.a[1]) == 2 and e2.a[2] == lp2.a[1][0] and e2.b == lp2.a[1][1] and op(lp2.b) == "call" and callee_name(lp2.b) == "items":
+                        src2 = lp2.b[1][1]
+                        if op(src2) == "attr" and src2[1] == ("param", self_name):
+                            alias[name] = src2[2]
+                        elif op(src2) == "call" and op(src2[1]) == "func":
+                            tables[name] = dict_builder_entries(cx, cx.model.functions[src2[1][1]], name, ob_id)
+            if name in alias or name in tables:
+                continue
         if op(v) == "call" and callee_name(v) == "StringTrie" and len(v[2]) == 1:
-            src = v[2][0]
+            src = _strip_views(v[2][0])
             if op(src) == "attr" and src[1] == ("param", self_name):
                 alias[name] = src[2]
                 continue
@@ -1212,6 +1241,40 @@ def record_verbatim(cx: Cx, ob: Ob, class_q: str = "curies.api.Record") -> None:
 IO_CALLS = {"open", "read_text", "read_bytes", "urlopen", "json.load", "urllib.request.urlopen", "requests.get"}
 
 
+def _ast_callees(cx: Cx, fn: FunctionInfo) -> set:
+    """Qualified names of package functions / own-class methods called (by name) in the body of ``fn``."""
+    import ast
+
+    out = set()
+    mod = fn.module
+    for n in ast.walk(fn.node):
+        if not isinstance(n, ast.Call):
+            continue
+        f = n.func
+        if isinstance(f, ast.Name):
+            r = cx.model.resolve_global(mod, f.id)
+            if r and r[0] == "func":
+                out.add(r[1].qualname)
+            elif f.id in fn.nested:
+                out.add(fn.nested[f.id].qualname)
+        elif isinstance(f, ast.Attribute) and isinstance(f.value, ast.Name) and f.value.id in ("self", "cls") and fn.cls is not None:
+            m2 = cx.model.find_method(fn.cls, f.attr)
+            if m2 is not None:
+                out.add(m2.qualname)
+    return out
+
+
+def _ast_does_io(fn: FunctionInfo) -> bool:
+    import ast
+
+    for n in ast.walk(fn.node):
+        if isinstance(n, ast.Call):
+            name = ast.unparse(n.func)
+            if name.rsplit(".", 1)[-1] in ("open", "read_text", "read_bytes", "urlopen") or name in ("json.load", "requests.get"):
+                return True
+    return False
+
+
 def memoised_io(cx: Cx, ob: Ob, roots: list[str]) -> None:
     """No function reachable from ``roots`` that (transitively) reads a file or the network is memoised:
     the same location must be read again after it was rewritten."""
@@ -1220,32 +1283,20 @@ def memoised_io(cx: Cx, ob: Ob, roots: list[str]) -> None:
     reach = []
     while todo:
         q = todo.pop()
-        if q in seen or len(seen) > 200:
+        if q in seen or len(seen) > 300:
             continue
         seen.add(q)
         fn = cx.model.functions[q]
         reach.append(fn)
-        s = cx.summary(fn)
-        for t, _, _ in s.all_terms():
-            for x in subterms(t):
-                if op(x) == "func" and x[1] in cx.model.functions:
-                    todo.append(x[1])
-                if op(x) == "call" and op(x[1]) == "attr" and op(x[1][1]) == "param" and fn.cls is not None and x[1][1][1] in (fn.self_name, "cls"):
-                    m2 = cx.model.find_method(fn.cls, x[1][2])
-                    if m2 is not None:
-                        todo.append(m2.qualname)
+        todo.extend(_ast_callees(cx, fn))
 
-    def does_io(fn, depth=0) -> bool:
-        s = cx.summary(fn)
-        for t, _, _ in s.all_terms():
-            for x in subterms(t):
-                if op(x) == "call":
-                    n = callee_name(x)
-                    full = x[1][1] if op(x[1]) in ("ext", "builtin") else n
-                    if n in IO_CALLS or full in IO_CALLS:
-                        return True
-                    if depth < 3 and op(x[1]) == "func" and x[1][1] in cx.model.functions and does_io(cx.model.functions[x[1][1]], depth + 1):
-                        return True
+    def does_io(fn, depth=0, stack=()) -> bool:
+        if _ast_does_io(fn):
+            return True
+        if depth < 3:
+            for q in _ast_callees(cx, fn):
+                if q not in stack and q in cx.model.functions and does_io(cx.model.functions[q], depth + 1, stack + (q,)):
+                    return True
         return False
 
     for fn in reach:
@@ -1279,6 +1330,8 @@ def constructor_owns_records(cx: Cx, ob: Ob) -> None:
             if parent is not None and op(parent) == "call":
                 if parent[1] in MATERIALISE and parent[2][:1] == (rp,):
                     ok = True
+            if parent is not None and op(parent) == "star":
+                ok = True  # [*records] / (*records,) build a fresh sequence
                 if parent[1] == ("builtin", "isinstance") and parent[2][:1] == (rp,):
                     ok = True
             if parent is not None and op(parent) == "cmp" and is_const(parent[3], None):
@@ -1321,6 +1374,6 @@ def constructor_owns_records(cx: Cx, ob: Ob) -> None:
     stored = [ev.b for ev, _ in s.distinct_events("store") if ev.a == ("attr", me, "records")]
     for v in stored:
         ob.site(f"{init.where} {init.qualname}", f"self.records = {show(v)[:60]}")
-        fresh = (op(v) == "call" and v[1] in MATERIALISE) or op(v) in ("comp", "list", "new")
+        fresh = (op(v) == "call" and v[1] in MATERIALISE) or op(v) in ("comp", "list", "tuple", "new")
         if not fresh and v != rp:
             ob.undecide(f"self.records is assigned `{show(v)[:60]}`: not recognisably a fresh list")
